@@ -43,7 +43,11 @@ func NewWith(convert StructOptions, value interface{}) Value {
 	}
 
 	if v.Type() == timeType {
-		return String(v.Interface().(time.Time).Format(convert.TimeFormat))
+		var format = convert.TimeFormat
+		if format == "" {
+			format = time.RFC3339 // ISO-8601, as documented on StructOptions
+		}
+		return String(v.Interface().(time.Time).Format(format))
 	}
 
 	switch v.Kind() {
